@@ -22,6 +22,8 @@ func init() {
 		},
 		Run: runC01,
 		Controls: []Control{
+			{Name: "getlonger-dumps-first-longer-node", File: "routingtable/trie.go", Old: "\tif currentPfx.Equal(pfx) || pfx.Contains(currentPfx) {\n\t\treturn n.dumpPfxs(res)\n\t}\n", New: "\tif currentPfx.Equal(pfx) || currentPfx.Len() > pfx.Len() {\n\t\treturn n.dumpPfxs(res)\n\t}\n", Expect: "longer-dumps-subtree"},
+			{Name: "refactor-getlonger-two-ifs", Silent: true, File: "routingtable/trie.go", Old: "\tif currentPfx.Equal(pfx) || pfx.Contains(currentPfx) {\n\t\treturn n.dumpPfxs(res)\n\t}\n", New: "\tif currentPfx.Equal(pfx) {\n\t\treturn n.dumpPfxs(res)\n\t}\n\tif pfx.Contains(currentPfx) {\n\t\treturn n.dumpPfxs(res)\n\t}\n"},
 			{Name: "supernet-half-chosen-by-other-length", File: "net/prefix.go", Old: "\tif pfxLen > 64 {\n\t\tmask := uint64(math.MaxUint64 << (128 - pfxLen))", New: "\tif maxPfxLen > 64 {\n\t\tmask := uint64(math.MaxUint64 << (128 - pfxLen))", Expect: "bound-agrees-with-base"},
 			{Name: "lpm-drops-dummy-test", File: "routingtable/trie.go", Old: "if !n.dummy {\n\t\t*res = append(*res, n.route)\n\t}\n\tn.l.lpm(needle, res)", New: "*res = append(*res, n.route)\n\tn.l.lpm(needle, res)", Expect: "dummy-gate"},
 			{Name: "count-unconditional", File: "routingtable/table.go", Old: "if rt.root.removePath(pfx, p) {\n\t\tatomic.AddInt64(&rt.routeCount, -1)\n\t}", New: "rt.root.removePath(pfx, p)\n\tatomic.AddInt64(&rt.routeCount, -1)", Expect: "count-follows-node-result"},
@@ -165,7 +167,70 @@ func runC01(c *core.Ctx) {
 			}
 		}
 		c.Check(reaches, "longer-dumps-subtree", gl.Name(), gl.Decl.Pos(), "GetLonger no longer reaches the subtree dump (*node).dumpPfxs")
-	}
+
+		// the subtree that is dumped lies inside the query, and the descent stays below nodes that cover it: path conditions
+		// of the dump / of the recursive calls in (*node).getLonger imply containment, whatever other tests are added
+		if ng := c.MustFunc(pkg + ".(*node).getLonger"); ng != nil {
+			c.Analysed(ng)
+			pc, err := core.ExtractPathConds(ng)
+			dump := p.Func(pkg + ".(*node).dumpPfxs")
+			pfxPar := core.ParamObj(ng, 0)
+			if err != nil || dump == nil || pfxPar == nil {
+				c.Undecided("longer-dumps-subtree", ng.Name(), ng.Decl.Pos(), "path conditions of (*node).getLonger cannot be extracted")
+			} else {
+				// atoms: EQ = current.Equal(pfx) · IN = pfx.Contains(current) · COVER = current.Contains(pfx)
+				classify := func(e ast.Expr) (string, bool, bool) {
+					call, ok := core.Unparen(e).(*ast.CallExpr)
+					if !ok || len(call.Args) != 1 {
+						return "", false, false
+					}
+					sel, ok := call.Fun.(*ast.SelectorExpr)
+					if !ok {
+						return "", false, false
+					}
+					recvIsQuery := core.ObjOf(ng.Pkg, sel.X) == pfxPar
+					argIsQuery := core.ObjOf(ng.Pkg, call.Args[0]) == pfxPar
+					switch core.FuncKey(core.Callee(ng.Pkg, call)) {
+					case "net.(*Prefix).Equal":
+						if recvIsQuery != argIsQuery {
+							return "EQ", false, true
+						}
+					case "net.(*Prefix).Contains":
+						if recvIsQuery && !argIsQuery {
+							return "IN", false, true
+						}
+						if argIsQuery && !recvIsQuery {
+							return "COVER", false, true
+						}
+					}
+					return "", false, false
+				}
+				n := 0
+				for _, ret := range pc.Returns {
+					if len(ret.Results) != 1 {
+						continue
+					}
+					call, ok := core.Unparen(ret.Results[0]).(*ast.CallExpr)
+					if !ok {
+						continue
+					}
+					callee := core.Callee(ng.Pkg, call)
+					switch {
+					case callee == dump.Obj:
+						n++
+						ok, cex := formulaImplies(ng, pc.Cond[ret], classify, func(v map[string]bool) bool { return v["EQ"] || v["IN"] })
+						c.Check(ok, "longer-dumps-subtree", ng.Name()+" dumps a subtree only if its root equals or lies inside the query", ret.Pos(),
+							"the subtree dump is reached under a condition that does not imply `root == query or query contains root` ("+cex+"): with path compression a node below a covering node can diverge from the query inside the skipped bits, so more-specifics of an absent prefix list a foreign subtree")
+					case callee == ng.Obj:
+						n++
+						ok, cex := formulaImplies(ng, pc.Cond[ret], classify, func(v map[string]bool) bool { return v["COVER"] })
+						c.Check(ok, "longer-dumps-subtree", ng.Name()+" descends only below a node that covers the query", ret.Pos(),
+							"the recursive descent is reached under a condition that does not imply `node contains query` ("+cex+")")
+					}
+				}
+				c.Check(n >= 3, "longer-dumps-subtree", ng.Name()+" dump and descent sites found", ng.Decl.Pos(), fmt.Sprintf("found %d", n))
+			}
+		}	}
 
 	// the placement arithmetic (Contains/GetSupernet/BitAtPosition): the structural clauses of C15
 	runC15(c)
